@@ -22,6 +22,8 @@ EXPLANATION = (
     'header only (precedence of the single header); every HexToBinary result in the Jaeger extractor is checked and the B3 ids '
     'are behind IsValid(); the shared hex lookup is bounded (C09.R3).')
 EXPLANATION += " C16.R1 also requires that no branch on the B3 sampling field cuts off the success return (the debug flag 'd' never invalidates the header). C16.R3 (cooperating sites): a caller that ignores HexToBinary's result is accepted only while every return of HexToBinary is behind a memset of the whole buffer."
+ROUND2_EXPLANATION = (' C16.R5: no Inject / Extract / helper of the B3 and Jaeger propagators calls RuntimeContext; every GetSpan in Inject receives the context parameter; Extract uses its context parameter (or a local copy) only in SetSpan / SetValue and return. Shared C09.R9: id block operations cover the whole id.')
+EXPLANATION += ROUND2_EXPLANATION
 NOT_DECIDED = 'robustness of HexToBinary\'s variable-index writes on arbitrary bytes; acceptance of every documented variant over all inputs.'
 
 INJECTORS = (('trace::propagation::B3Propagator::Inject', 50), ('trace::propagation::B3PropagatorMultiHeader::Inject', None),
